@@ -288,4 +288,86 @@ def _call(self, fv, args, kwargs):
 
 _I.call = _call
 
-CONTRACTS = [SliceToMask(), ToOriginalView()]
+
+class IndexedIndices(FnContract):
+    """IndexedData answers histograms through a slice selection on the parent that is rebuilt whenever the indices are assigned"""
+    property_ids = ('C04', 'C05')
+    target = DD + ":IndexedData.indices.setter"
+    title = ("a tuple of the wrong length, or one that moves the kept (None) positions, is refused with nothing changed; otherwise the indices are stored, the slice selection used for "
+             "histograms and the pixel-attribute table are rebuilt from the NEW indices - whichever position changed - and listeners are told iff some index differs")
+
+    def configs(self, tier):
+        out = []
+        for pattern in ((None, 0, None), (None, None, 0), (0, None, 1), (None, 1, 2), (2, 1, None)):
+            ints = [i for i, x in enumerate(pattern) if x is not None]
+            for k in range(2 ** len(ints)):
+                out.append(dict(old=pattern, changed=tuple(ints[j] for j in range(len(ints)) if (k >> j) & 1), hub=True, fresh=False))
+        out += [dict(old=(None, 0, None), changed=(1,), hub=False, fresh=False), dict(old=(None, 0, None), changed=(), hub=True, fresh=True),
+                dict(old=(None, 0, None), changed='too-long', hub=True, fresh=False), dict(old=(None, 0, None), changed='none-moved', hub=True, fresh=False)]
+        return out
+
+    def inputs(self, cfg, P):
+        old = cfg['old']
+        if cfg['changed'] == 'too-long':
+            new = old + (0,)
+        elif cfg['changed'] == 'none-moved':
+            new = (0, None, None)
+        else:
+            new = tuple((x + 1 if i in cfg['changed'] else x) for i, x in enumerate(old))
+        ev = []
+        px = [PObj('PixelComponentID', fields={'axis': i}) for i in range(3)]
+        orig = PObj('Data', fields={'ndim': 3, 'pixel_component_ids': PList(list(px)), 'world_component_ids': PList([])})
+        hub = PObj('Hub', methods={'broadcast': lambda I, s, m: ev.append(m)}) if cfg['hub'] else None
+        me = PObj('IndexedData', fields={'_original_data': orig, 'hub': hub, '_cid_to_original_cid': {}})
+        me.methods['ndim'] = ('__property__', lambda I, s_: sum(1 for x in s_.fields.get('_indices', ()) if x is None))
+        if not cfg['fresh']:
+            me.fields['_indices'] = old
+            me.fields['_indices_subset_state'] = 'OLD-SELECTION'
+            me.fields['_original_pixel_cids'] = 'OLD-TABLE'
+        st = St(me=me, orig=orig, px=px, new=new, ev=ev)
+        return Inputs([me, new], st=st)
+
+    def globals_(self, cfg, st):
+        def b_type(I, v):
+            return PType('NoneType' if v is None else type(v).__name__)
+
+        def b_hasattr(I, o, name):
+            return name in o.fields or name in o.methods
+        return {'SliceSubsetState': Builtin('SliceSubsetState', lambda I, data, slices: PObj('SliceSubsetState', fields={'data': data, 'slices': slices})),
+                'NumericalDataChangedMessage': Builtin('NumericalDataChangedMessage', lambda I, sender: PObj('NumericalDataChangedMessage', fields={'sender': sender})),
+                'type': Builtin('type', b_type), 'hasattr': Builtin('hasattr', b_hasattr)}
+
+    raises = {'ValueError': lambda cfg, st: cfg['changed'] == 'too-long', 'TypeError': lambda cfg, st: cfg['changed'] == 'none-moved'}
+
+    def finish(self, cfg, st, P, outcome):
+        qn = "IndexedData.indices.setter[%s]" % self.cfg_name(cfg)
+        f = st.me.fields
+        if outcome[0] == 'raise':
+            P.check(qn + "/raises:refused-indices-change-nothing", f.get('_indices') == cfg['old'] and f.get('_indices_subset_state') == 'OLD-SELECTION' and not st.ev)
+            return
+        new = st.new
+        P.check(qn + "/ensures:indices-stored", f.get('_indices') == new)
+        if (not cfg['fresh']) and new == cfg['old'] and f.get('_indices_subset_state') == 'OLD-SELECTION' and f.get('_original_pixel_cids') == 'OLD-TABLE':
+            # the same indices assigned again: keeping what was built for them is as good as rebuilding it
+            P.check(qn + "/ensures:nothing-announced", not st.ev)
+            return
+        sel = f.get('_indices_subset_state')
+        ok = isinstance(sel, PObj) and sel.cls == 'SliceSubsetState' and sel.fields['data'] is st.orig
+        P.check(qn + "/ensures:slice-selection-rebuilt-on-the-parent", ok)
+        if ok:
+            sl = sel.fields['slices']
+            items = sl.items if isinstance(sl, PList) else list(sl)
+            want_ok = len(items) == 3 and all((isinstance(a, PSlice) and a.start is None and a.stop is None and a.step is None) if b is None else (a == b) for a, b in zip(items, new))
+            P.check(qn + "/ensures:slice-selection-is-the-NEW-indices(whole-axis-where-kept)", want_ok)
+        tab = f.get('_original_pixel_cids')
+        titems = tab.items if isinstance(tab, PList) else (tab if isinstance(tab, list) else None)
+        P.check(qn + "/ensures:pixel-attributes-of-the-kept-axes-in-order", titems is not None and len(titems) == sum(1 for x in new if x is None)
+                and all(a is st.px[i] for a, i in zip(titems, [i for i, x in enumerate(new) if x is None])))
+        differs = (not cfg['fresh']) and new != cfg['old']
+        if differs and cfg['hub']:
+            P.check(qn + "/ensures:listeners-told-that-the-values-changed", len(st.ev) == 1 and st.ev[0].cls == 'NumericalDataChangedMessage' and st.ev[0].fields['sender'] is st.me)
+        else:
+            P.check(qn + "/ensures:nothing-announced", not st.ev)
+
+
+CONTRACTS = [SliceToMask(), ToOriginalView(), IndexedIndices()]
